@@ -41,7 +41,13 @@ def run(ctx):
                 vlib.report(ctx, 'census:' + why, why + ': ' + detail, dict(event='census'))
             else:
                 vlib.report(ctx, '%s:%s' % (e['ev'], why), 'runtime tables of the registry (%s): %s' % (e.get('when', ''), why), dict(event=e['ev'], when=e.get('when')))
-    cov = dict(evaluations=len(lines), distinct_nontrivial=len(hdr['names']), programs=len(hdr['names']), exhaustive=True,
+    # exported identifiers of the library packages against the pinned record: a new one is an entry point no driver calls
+    added, removed = vlib.api_census(ctx)
+    for (pkg, x) in added[:8]:
+        ctx.drift.append('new exported identifier in %s, driven by no specification here: %s' % (pkg, x[:120]))
+    for (pkg, x) in removed[:8]:
+        ctx.drift.append('exported identifier of the pinned tree is gone from %s: %s' % (pkg, x[:120]))
+    cov = dict(api_added=len(added), api_removed=len(removed), evaluations=len(lines), distinct_nontrivial=len(hdr['names']), programs=len(hdr['names']), exhaustive=True,
                rule='one Register event per registered lint replayed through Registry.tla (tables compared with the runtime lookups afterwards), '
                     'metadata well-formedness per lint, census of the source tree vs the registry; every lint is non-trivial',
                samples=[json.loads(lines[1]), {k: (v if not isinstance(v, list) else v[:5]) for k, v in census.items()}],
